@@ -255,6 +255,7 @@ func runPairs(e *lib.Env, mods []stateMod, cal *calibration, statePs []*statePro
 		ps.mu.Unlock()
 	}
 	leaksByKey := map[string]int{}
+	var endedBy []string
 
 	checkOrdered := func(a, b *pairProg) {
 		b.baseline()
@@ -266,6 +267,11 @@ func runPairs(e *lib.Env, mods []stateMod, cal *calibration, statePs []*statePro
 		so, se, note := runWorker(a.path, b.path)
 		if note == "first program ended the process" {
 			bump("first_program_ended_process")
+			ps.mu.Lock()
+			if len(endedBy) < 8 {
+				endedBy = append(endedBy, a.name)
+			}
+			ps.mu.Unlock()
 			return
 		}
 		if note != "" {
@@ -395,7 +401,7 @@ func runPairs(e *lib.Env, mods []stateMod, cal *calibration, statePs []*statePro
 			return
 		}
 		attributed := map[string]bool{} // "@"+observation id
-		runVariant := func(culprit string, touched map[string]bool) (*observation, string, bool) {
+		runVariant := func(culprit string, touched map[string]touchSpec) (*observation, string, bool) {
 			sp := buildStateProgram(mods, a.state.id, touched, cal.modOK)
 			path := writeProg("attr", a.name+"__"+culprit+"__before_"+b.name, sp.src)
 			so3, se3, note3 := runWorker(path, b.path)
@@ -419,7 +425,7 @@ func runPairs(e *lib.Env, mods []stateMod, cal *calibration, statePs []*statePro
 			causes[culprit+"\x00"+id] = true
 			causeMu.Unlock()
 		}
-		o0, src0, ok0 := runVariant("no-touch", map[string]bool{})
+		o0, src0, ok0 := runVariant("no-touch", map[string]touchSpec{})
 		if ok0 {
 			first := true
 			for _, id := range confirmed {
@@ -437,7 +443,7 @@ func runPairs(e *lib.Env, mods []stateMod, cal *calibration, statePs []*statePro
 			}
 		}
 		for _, t := range a.state.touched {
-			ot, srct, okt := runVariant(t, map[string]bool{t: true})
+			ot, srct, okt := runVariant(t, map[string]touchSpec{t: a.state.spec[t]})
 			if !okt {
 				continue
 			}
@@ -466,8 +472,43 @@ func runPairs(e *lib.Env, mods []stateMod, cal *calibration, statePs []*statePro
 		checkOrdered(pairs[i].b, pairs[i].a)
 	})
 
+	// Fixed battery (not seeded): every module whose state is a stack, a list or a counter,
+	// touched K = 1..4 times / levels in each shape V = 0..2, as the ONLY touch of a first
+	// program, followed by an observer program that touches nothing (the first stable state
+	// program serves when the dedicated observer is unstable). Guarantees that e.g. "2, 3, 4
+	// buffers left open" is exercised whatever the seed.
+	var observer *pairProg
+	for _, p := range statePool {
+		if p.name == "stateOBS" {
+			observer = p
+		}
+	}
+	nBattery := 0
+	if observer != nil {
+		var battery []*pairProg
+		for _, m := range mods {
+			if !cal.modOK(m.name) || m.name == "uncaught" || m.name == "same_names" {
+				continue
+			}
+			for k := 1; k <= 4; k++ {
+				for v := 0; v <= 2; v++ {
+					if (k > 1 || v > 0) && !cal.modMulti(m.name) {
+						continue
+					}
+					id := fmt.Sprintf("BAT_%s_%d_%d", m.name, k, v)
+					sp := buildStateProgram(mods, id, map[string]touchSpec{m.name: {K: k, V: v}}, cal.modOK)
+					battery = append(battery, &pairProg{name: "state" + id, class: "state", path: writeProg("battery", "state"+id, sp.src), src: sp.src, state: sp, labels: true})
+				}
+			}
+		}
+		nBattery = len(battery)
+		lib.ParallelMap(len(battery), 0, func(i int) { checkOrdered(battery[i], observer) })
+	}
+	ps.extra["battery_first_programs_single_module_K1to4_V0to2"] = nBattery
+
 	lib.ParallelMap(len(selfPool), 0, func(i int) { checkOrdered(selfPool[i], selfPool[i]) })
 	ps.extra["programs_run_after_themselves"] = len(selfPool)
+	ps.extra["first_programs_that_ended_the_process"] = endedBy
 	ps.extra["seeded_pairs_state"] = nStatePairs
 	ps.extra["seeded_pairs_order_and_gen"] = len(pairs) - nStatePairs
 	ps.extra["counts"] = counts
